@@ -83,7 +83,10 @@ pub struct BufReaderWrite<R> {
 impl<R: Read> BufReaderWrite<R> {
     pub fn new(inner: R) -> BufReaderWrite<R> {
         BufReaderWrite {
+            #[cfg(not(kani))]
             inner: BufReader::new(inner),
+            #[cfg(kani)]
+            inner: BufReader::with_capacity(crate::verif::HEAD_BUF_CAP, inner),
         }
     }
 }
